@@ -125,6 +125,7 @@ class Translate(BaseTranslateFilter, TranslatableFilter):
         self,
         __left: object,
         __message_context: object = None,
+        /,
         *,
         context: RenderContext,
         **kwargs: Any,
@@ -248,6 +249,7 @@ class GetText(BaseTranslateFilter, TranslatableFilter):
     def __call__(  # noqa: D102
         self,
         __left: object,
+        /,
         *,
         context: RenderContext,
         **kwargs: Any,
@@ -295,6 +297,7 @@ class NGetText(BaseTranslateFilter, TranslatableFilter):
         __left: object,
         __plural: str,
         __count: object,
+        /,
         *,
         context: RenderContext,
         **kwargs: Any,
@@ -356,6 +359,7 @@ class PGetText(BaseTranslateFilter, TranslatableFilter):
         self,
         __left: object,
         __message_context: str,
+        /,
         *,
         context: RenderContext,
         **kwargs: Any,
@@ -413,6 +417,7 @@ class NPGetText(BaseTranslateFilter, TranslatableFilter):
         __message_context: str,
         __plural: str,
         __count: object,
+        /,
         *,
         context: RenderContext,
         **kwargs: Any,
